@@ -133,6 +133,16 @@ func scPrincipal(r *Run) {
 	}
 	r.SetCfg("pipelined", pipelined)
 	pendingIdx := map[string][]int{}
+	// the user interface may crash instead of deciding (a dialog that cannot render what the delegate chose):
+	// the callback panics.  A callback that crashed has approved nothing.  (Only for a later request of a
+	// sequential run: that callback runs on the principal's own goroutine, where the harness can catch what
+	// the code under test lets through.)
+	panicAt := -1
+	if !pipelined && nReq >= 2 && r.Intn("panic", 10) == 0 {
+		panicAt = 1 + r.Intn("panic", nReq-1)
+		r.SetCfg("callback-crashes-at-request", panicAt)
+	}
+	principalCrashed := false
 	checkIntent := func(i authgrants.Intent, c *certs.Certificate) error {
 		mu.Lock()
 		idx := reqNo - 1
@@ -149,6 +159,14 @@ func scPrincipal(r *Run) {
 		}
 		mu.Lock()
 		defer mu.Unlock()
+		if idx == panicAt && idx >= 0 {
+			approvals = append(approvals, &approval{key: intentKey(i), ok: false, at: tick()})
+			r.Logf("approval callback #%d crashes", idx)
+			r.CountFault("approval-callback-panics", 1)
+			mu.Unlock()
+			defer mu.Lock() // (keeps the deferred Unlock balanced while the panic unwinds)
+			panic("sim: the approval dialog crashed")
+		}
 		approvals = append(approvals, &approval{key: intentKey(i), ok: ok, at: tick()})
 		r.Logf("approval callback #%d -> %v", idx, ok)
 		if ok {
@@ -326,8 +344,21 @@ func scPrincipal(r *Run) {
 	// --- the real principal
 	prDone := make(chan struct{})
 	r.Go(func() {
+		defer close(prDone)
+		defer func() {
+			if e := recover(); e != nil {
+				if panicAt < 0 || fmt.Sprint(e) != "sim: the approval dialog crashed" {
+					panic(e) // not ours
+				}
+				// the principal's process died with its user interface: its connections are gone
+				mu.Lock()
+				principalCrashed = true
+				mu.Unlock()
+				r.Logf("principal instance ended by the panic of its approval callback")
+				princD.Close()
+			}
+		}()
 		authgrants.StartPrincipalInstance(princD, checkIntent, setUp)
-		close(prDone)
 	})
 	// --- the scripted delegate
 	answers := make(chan authgrants.AgMessage, 64)
@@ -456,6 +487,13 @@ func scPrincipal(r *Run) {
 		r.Obligation(1)
 		if r.Failed() {
 			break
+		}
+		mu.Lock()
+		crashed := principalCrashed
+		mu.Unlock()
+		if crashed && got == 0 {
+			r.Logf("request %d: no answer, the principal crashed", i)
+			break // (a dead principal answers nothing; what it forwarded before it died is judged below)
 		}
 		if got != 1 {
 			r.Violate(fmt.Sprintf("C06/answers-per-request/%d", min(got, 2)), "request %d (principal decision approve=%v, target mode %d, setup mode %d): the delegate received %d answers instead of exactly one", i, decisions[i], targetMode, setupMode, got)
